@@ -71,44 +71,49 @@ fn('mouette.mesh.datatypes.linear.PolyLine._Connectivity.vertex_to_vertices', pr
 # numbers the corners face by face (first[f] + i), as face_corners does (C02 contract, proved in specs/meshdata).
 predicate('fprefix', 'first, rows', '''first[0] == 0 and all(first[f+1] == first[f] + len(rows[f]) for f in range(len(rows)))
     and all(all(first[a] <= first[b] for a in range(b + 1)) for b in range(len(rows) + 1))''')
-predicate('hedge', 'rows, f, i', '(rows[f][i], rows[f][(i + 1) % len(rows[f])])')
-predicate('he_entry', 'c, rows, first, f, i', '''hedge(rows, f, i) in c._half_edges
-    and len(c._half_edges[hedge(rows, f, i)]) == 7
-    and c._half_edges[hedge(rows, f, i)][0] == first[f] + i
-    and c._half_edges[hedge(rows, f, i)][1] == first[f] + (i - 1) % len(rows[f])
-    and c._half_edges[hedge(rows, f, i)][2] == first[f] + (i + 1) % len(rows[f])
-    and c._half_edges[hedge(rows, f, i)][3] is None
-    and c._half_edges[hedge(rows, f, i)][4] == f
-    and c._half_edges[hedge(rows, f, i)][5] == i
-    and c._half_edges[hedge(rows, f, i)][6] == (i + 1) % len(rows[f])''')
-predicate('cn_entry', 'c, rows, first, f, i', '(first[f] + i) in c._Cn2he and c._Cn2he[first[f] + i] == hedge(rows, f, i)')
+# Corner-indexed description of the face list (logical parameters, tied to the rows by `corner_maps`): for the corner c = first[f] + i,
+#   cu[c] -> cv[c] is its directed edge, cp[c] / cn[c] the previous / next corner of the face, cfa[c] = f, cia[c] = i, cja[c] = (i+1) % len.
+predicate('corner_maps', 'rows, first, cu, cv, cp, cn, cfa, cia, cja', '''all(all(
+        cu[first[f] + i] == rows[f][i] and cv[first[f] + i] == rows[f][(i + 1) % len(rows[f])]
+        and cp[first[f] + i] == first[f] + (i - 1) % len(rows[f]) and cn[first[f] + i] == first[f] + (i + 1) % len(rows[f])
+        and cfa[first[f] + i] == f and cia[first[f] + i] == i and cja[first[f] + i] == (i + 1) % len(rows[f])
+      for i in range(len(rows[f]))) for f in range(len(rows)))''')
+# entry of corner c in the two tables
+predicate('he_ok', 'c, k, cu, cv, cp, cn, cfa, cia, cja, cid', '''((cu[k], cv[k]) in c._half_edges) and len(c._half_edges[(cu[k], cv[k])]) == 7
+    and c._half_edges[(cu[k], cv[k])][0] == k and c._half_edges[(cu[k], cv[k])][1] == cp[k] and c._half_edges[(cu[k], cv[k])][2] == cn[k]
+    and c._half_edges[(cu[k], cv[k])][3] is None and c._half_edges[(cu[k], cv[k])][4] == cfa[k]
+    and c._half_edges[(cu[k], cv[k])][5] == cia[k] and c._half_edges[(cu[k], cv[k])][6] == cja[k]
+    and (k in c._Cn2he) and c._Cn2he[k] == (cu[k], cv[k]) and cid[(cu[k], cv[k])] == k''')
 
+HE_G = {'first': 'map[int,int]', 'cu': 'map[int,int]', 'cv': 'map[int,int]', 'cp': 'map[int,int]', 'cn': 'map[int,int]',
+        'cfa': 'map[int,int]', 'cia': 'map[int,int]', 'cja': 'map[int,int]', 'cid': 'map[tuple[int,int],int]'}
+HE_ARGS = 'cu, cv, cp, cn, cfa, cia, cja'
+HE_ARGS2 = HE_ARGS + ', cid'
 fn(S + '._compute_connectivity#half_edges', of=S + '._compute_connectivity', properties=['C01'],
    region=('self._half_edges = dict()', 'for iF, F in enumerate(self.mesh.faces)'),
-   ghost_params={'first': 'map[int,int]', 'wf': 'map[tuple[int,int],int]', 'wi': 'map[tuple[int,int],int]', 'cf': 'map[int,int]', 'ci': 'map[int,int]'},
-   lets={'rows': 'self.mesh.faces._data'},
+   ghost_params=HE_G,
    requires=['fprefix(first, self.mesh.faces._data)',
-             'all(len(self.mesh.faces._data[f]) >= 3 for f in range(len(self.mesh.faces._data)))',
+             'all(len(self.mesh.faces._data[f]) >= 1 for f in range(len(self.mesh.faces._data)))',
              'self._adjVF2Cn is not None',
-             # corner numbering established by the dropped prefix
+             # corner numbering established by the dropped prefix: the (vertex, face) -> corner table numbers the corners face by face
              'all(all((self.mesh.faces._data[f][i], f) in self._adjVF2Cn and self._adjVF2Cn[(self.mesh.faces._data[f][i], f)] == first[f] + i '
              '        for i in range(len(self.mesh.faces._data[f]))) for f in range(len(self.mesh.faces._data)))',
-             # oriented manifold: a directed edge occurs in at most one (face, position), stated through the inverse maps wf, wi
-             # (logical parameters): (f, i) is recovered from the directed edge
-             'all(all(wf[hedge(self.mesh.faces._data, f, i)] == f and wi[hedge(self.mesh.faces._data, f, i)] == i '
-             '        for i in range(len(self.mesh.faces._data[f]))) for f in range(len(self.mesh.faces._data)))',
-             # the corner numbering first[f] + i is invertible (consequence of the monotone prefix sums; logical parameters cf, ci)
-             'all(all(cf[first[f] + i] == f and ci[first[f] + i] == i for i in range(len(self.mesh.faces._data[f]))) for f in range(len(self.mesh.faces._data)))'],
+             'corner_maps(self.mesh.faces._data, first, %s)' % HE_ARGS,
+             # oriented manifold: a directed edge belongs to exactly one corner (cid recovers the corner from its directed edge)
+             'all(cid[(cu[c], cv[c])] == c for c in range(first[len(self.mesh.faces._data)]))'],
    modifies=['self._half_edges', 'self._Cn2he'],
    loops={2: loop(invariant=['self._half_edges is not None and self._Cn2he is not None',
-                             'all(all(he_entry(self, self.mesh.faces._data, first, f, i) for i in range(len(self.mesh.faces._data[f]))) for f in range(it2))',
-                             'all(all(cn_entry(self, self.mesh.faces._data, first, f, i) for i in range(len(self.mesh.faces._data[f]))) for f in range(it2))']),
-          3: loop(invariant=['self._half_edges is not None and self._Cn2he is not None', 'n == len(self.mesh.faces._data[it2])',
-                             'all(all(he_entry(self, self.mesh.faces._data, first, f, i) for i in range(len(self.mesh.faces._data[f]))) for f in range(it2))',
-                             'all(he_entry(self, self.mesh.faces._data, first, it2, i) for i in range(it3))',
-                             'all(all(cn_entry(self, self.mesh.faces._data, first, f, i) for i in range(len(self.mesh.faces._data[f]))) for f in range(it2))',
-                             'all(cn_entry(self, self.mesh.faces._data, first, it2, i) for i in range(it3))'])},
+                             'all(he_ok(self, k, %s) for k in range(first[it2]))' % HE_ARGS2]),
+          3: loop(invariant=['self._half_edges is not None and self._Cn2he is not None', 'iF == it2', '0 <= it2 and it2 < len(self.mesh.faces._data)',
+                             'n == len(self.mesh.faces._data[it2])', 'first[it2] + n <= first[len(self.mesh.faces._data)]', 'first[it2] >= 0', 'len(F) == n and all(F[q] == self.mesh.faces._data[it2][q] for q in range(n))',
+                             # the facts about the current face (instances of the preconditions at f = it2, which are then hidden from the
+                             # preservation step: the solver is unstable with the doubly quantified forms in its context)
+                             'all(cu[first[it2] + i] == F[i] and cv[first[it2] + i] == F[(i + 1) % n] and cp[first[it2] + i] == first[it2] + (i - 1) % n '
+                             '    and cn[first[it2] + i] == first[it2] + (i + 1) % n and cfa[first[it2] + i] == it2 and cia[first[it2] + i] == i and cja[first[it2] + i] == (i + 1) % n for i in range(n))',
+                             'self._adjVF2Cn is not None and all((F[i], it2) in self._adjVF2Cn and self._adjVF2Cn[(F[i], it2)] == first[it2] + i for i in range(n))',
+                             'all(cid[(cu[first[it2] + i], cv[first[it2] + i])] == first[it2] + i for i in range(n))',
+                             'all(he_ok(self, k, %s) for k in range(first[it2] + it3))' % HE_ARGS2],
+                  hide=[0, 3, 4, 5])},
+   # every corner has its record: directed edge, previous / next corner, face, local indices; no opposite yet
    ensures=['self._half_edges is not None and self._Cn2he is not None',
-            # every directed edge (f, i) of the face list has its table entry: corner, previous, next, (opposite not linked yet), face, positions
-            'all(all(he_entry(self, self.mesh.faces._data, first, f, i) for i in range(len(self.mesh.faces._data[f]))) for f in range(len(self.mesh.faces._data)))',
-            'all(all(cn_entry(self, self.mesh.faces._data, first, f, i) for i in range(len(self.mesh.faces._data[f]))) for f in range(len(self.mesh.faces._data)))'])
+            'all(he_ok(self, k, %s) for k in range(first[len(self.mesh.faces._data)]))' % HE_ARGS2])
